@@ -86,6 +86,7 @@ type State struct {
 	steps  int
 	mask   EffSet
 	trackIter bool
+	iterDepth int // frame depth of the tracked loop
 }
 
 type Valuation struct {
@@ -218,7 +219,7 @@ func (st *State) depth() int32 { return int32(len(st.frames) - 1) }
 func (st *State) top() *Frame  { return &st.frames[len(st.frames)-1] }
 
 func (st *State) clone() *State {
-	n := &State{must: st.must, may: st.may, lk: st.lk, iter: st.iter, steps: st.steps, mask: st.mask, trackIter: st.trackIter, User: st.User}
+	n := &State{must: st.must, may: st.may, lk: st.lk, iter: st.iter, steps: st.steps, mask: st.mask, trackIter: st.trackIter, iterDepth: st.iterDepth, User: st.User}
 	n.frames = make([]Frame, len(st.frames))
 	copy(n.frames, st.frames)
 	for i := range n.frames {
@@ -594,7 +595,7 @@ func (x *Explorer) hash(st *State) uint64 {
 		}
 		return 0
 	}
-	buf = putInt(buf, -4, int(st.User))
+	buf = putInt(buf, -4, int(st.User), st.iterDepth)
 	buf = putInt(buf, -2, int(st.must[0]), int(st.must[1]), int(st.may[0]), int(st.may[1]), int(st.iter[0]), int(st.iter[1]),
 		int(lk.H), int(lk.HDepth), int(lk.S), int(lk.M), b2i(lk.SW), b2i(lk.MW), int(lk.T),
 		int(lk.Si[0]), int(lk.Si[1]), int(lk.Si[2]), int(lk.Mi[0]), int(lk.Mi[1]), int(lk.Mi[2]))
@@ -681,11 +682,8 @@ func (x *Explorer) Run() {
 	st := &State{env: map[vkey]Sym{}, cells: map[vkey]Sym{}, facts: map[Sym]Fact{}, mask: x.Mask.Union(effs(ETblHas, EFsRObj, EJsonDec))}
 	fn := x.Root
 	start := fn.Blocks[0]
-	if x.LoopHeader != nil {
-		// loop mode: run the function from its entry; iteration tracking starts at the first arrival at the header
-		fn = x.LoopFn
-		start = fn.Blocks[0]
-	}
+	// loop mode: the root is explored from its entry; iteration tracking starts at the first arrival at the header
+	// of the tracked loop, which may live in the root or in a function inlined into it
 	st.frames = []Frame{{fn: fn, blk: start}}
 	// root parameters: receiver / args of unknown provenance
 	for _, p := range fn.Params {
@@ -737,8 +735,9 @@ func (x *Explorer) enterBlock(st *State, b *ssa.BasicBlock) bool {
 	fr.prev = fr.blk
 	fr.blk = b
 	fr.pc = 0
-	// loop mode: the first arrival at the header starts an iteration, the next one ends it
-	if x.LoopHeader != nil && len(st.frames) == 1 {
+	// loop mode: the first arrival at the header (in the frame of the function that owns the loop, at any
+	// inlining depth) starts an iteration, the next arrival in that same frame ends it
+	if x.LoopHeader != nil && fr.fn == x.LoopFn && (!st.trackIter || len(st.frames) == st.iterDepth) {
 		if b == x.LoopHeader {
 			if st.trackIter {
 				x.Paths++
@@ -746,6 +745,7 @@ func (x *Explorer) enterBlock(st *State, b *ssa.BasicBlock) bool {
 				return false
 			}
 			st.trackIter = true
+			st.iterDepth = len(st.frames)
 			st.iter = EffSet{}
 		} else if st.trackIter && x.LoopBlocks != nil && !x.LoopBlocks[b] && fr.prev == x.LoopHeader {
 			// normal termination of the loop (left through the header)
